@@ -10,17 +10,25 @@ From Coq Require Import Lia.
 Local Open Scope N_scope.
 
 (* nothing is added to the registry *)
+(* ... and an object disappears only together with its owner's connection *)
 Definition shrinks (m m' : M) : Prop :=
   objs (ms m') ⊆ objs (ms m) ∧
   (∀ k, is_Some (svcs (ms m') !! k) → is_Some (svcs (ms m) !! k)) ∧
-  dom (conns (ms m')) ⊆ dom (conns (ms m)).
+  dom (conns (ms m')) ⊆ dom (conns (ms m)) ∧
+  (∀ u o, objs (ms m) !! u = Some o → objs (ms m') !! u = Some o ∨ conns (ms m') !! o_owner o = None).
 
 Lemma shrinks_refl m : shrinks m m.
-Proof. done. Qed.
+Proof. split; [done|]. split; [done|]. split; [done|]. eauto. Qed.
 Lemma shrinks_trans m1 m2 m3 : shrinks m1 m2 → shrinks m2 m3 → shrinks m1 m3.
-Proof. intros (A1 & A2 & A3) (B1 & B2 & B3). split; [etrans; eauto|]. split; [eauto|]. set_solver. Qed.
+Proof.
+  intros (A1 & A2 & A3 & A4) (B1 & B2 & B3 & B4). split; [etrans; eauto|]. split; [eauto|]. split; [set_solver|].
+  intros u o Hu. destruct (A4 _ _ Hu) as [H2|H2]; [eauto|]. right.
+  apply not_elem_of_dom. apply not_elem_of_dom in H2. set_solver.
+Qed.
+Lemma shrinks_ms m m' : ms m' = ms m → shrinks m m'.
+Proof. unfold shrinks. intros ->. split; [done|]. split; [done|]. split; [done|]. eauto. Qed.
 Lemma quiet_shrinks m m' : quiet m m' → shrinks m m'.
-Proof. unfold shrinks. intros (-> & _). done. Qed.
+Proof. unfold shrinks. intros (-> & _). split; [done|]. split; [done|]. split; [done|]. eauto. Qed.
 
 (* ---------------------------------------------------------------- quiet folds that cannot fail *)
 Definition doneq (m : M) (r : outcome M) : Prop := ∃ m', r = Done m' ∧ quiet m m'.
@@ -114,9 +122,11 @@ Proof.
   destruct (w_remove_conns (mw m)) as [|[c sd] r] eqn:E1.
   2:{ set (mp := m <| mw; w_remove_conns := r |>).
       assert (quiet m mp) as Hq by done.
-      destruct (shutdown_conn_spec mp c sd (MI_quiet _ _ Hq H)) as (m' & -> & H' & S1 & S2 & S3).
+      destruct (shutdown_conn_spec mp c sd (MI_quiet _ _ Hq H)) as (m' & -> & H' & S1 & S2 & S3 & S4).
       exists m'. split; [done|]. split; [done|]. split; [done|]. split; [done|].
-      rewrite S1, dom_delete_L. set_solver. }
+      split; [rewrite S1, dom_delete_L; set_solver|].
+      intros u o Hu. destruct (decide (o_owner o = c)) as [->|Hne]; [right; rewrite S1; apply lookup_delete|].
+      left. by apply S4. }
   destruct (w_unsub_ev (mw m)) as [|[[c s] e] r] eqn:E2.
   2:{ eapply MI_pop_quiet; [done| |apply guarded_send_doneq]. done. }
   destruct (w_unsub_all (mw m)) as [|[c s] r] eqn:E3.
@@ -138,9 +148,9 @@ Proof.
         { rewrite Hs3. cbn. rewrite dom_insert_L. apply elem_of_dom_2 in Ec. set_solver. }
         split.
         + unfold MI, MX, MO. rewrite Hdom, Hs3, Hq3, Ha3. cbn. mx_frame H.
-        + unfold shrinks. rewrite Hdom, Hs3. cbn. done.
+        + unfold shrinks. rewrite Hdom, Hs3. cbn. split; [done|]. split; [done|]. split; [done|]. eauto.
       - destruct (rm_pop_skip _ _ _ _ _ _ Ec (iv_ec _ _ _ _ _ H) (iv_qe _ _ _ _ _ H)) as [P1 P2].
-        exists mp. split; [done|]. split; [|done]. unfold MI, MX, MO. subst mp. cbn. mx_frame H.
+        exists mp. split; [done|]. split; [|by apply shrinks_ms]. unfold MI, MX, MO. subst mp. cbn. mx_frame H.
         apply Hqn. }
   destruct (w_create_obj (mw m)) as [|[u c] r] eqn:E6.
   2:{ eapply MI_pop_quiet; [done| |apply bus_doneq]. done. }
@@ -154,7 +164,8 @@ Proof.
   set (mp := m <| mw; w_abort := r |>).
   destruct (abort_call_spec mp b callee) as (m' & -> & H' & Hb & Hd).
   { subst mp. cbn. unfold MI, MX, MO in H. rewrite E5, E10 in H. rewrite E5. exact H. }
-  exists m'. split; [done|]. split; [done|]. unfold shrinks. rw_fields Hb. rewrite Hd. done.
+  exists m'. split; [done|]. split; [done|]. unfold shrinks. rw_fields Hb. rewrite Hd.
+  split; [done|]. split; [done|]. split; [done|]. eauto.
 Qed.
 
 (* ---------------------------------------------------------------- settle *)
@@ -167,7 +178,8 @@ Lemma settle_spec fuel : ∀ m,
   end.
 Proof.
   induction fuel as [|fuel IH]; intros m H; cbn; pose proof (settle_one_spec m H) as Hs;
-    destruct (settle_one m) as [r|]; try (destruct Hs; done);
+    (destruct (settle_one m) as [r|];
+     [|destruct Hs as [? ?]; split; [done|]; split; [apply shrinks_refl|done]]);
     destruct Hs as (m' & -> & H' & Hsh); [done|].
   specialize (IH m' H'). destruct (settle fuel m'); [|done..].
   destruct IH as (I1 & I2 & I3 & I4). eauto using shrinks_trans.
